@@ -10,7 +10,11 @@ EXTENDS DKG, Json, IOUtils, TLC, TLCExt
 TraceFile == IF "TRACE" \in DOMAIN IOEnv THEN IOEnv.TRACE ELSE "trace.ndjson"
 TraceLog == ndJsonDeserialize(TraceFile)
 
-CONSTANT KnownErase   \* TRUE while the finding "party erased from QUAL after the sharing of x" is a listed known finding:
+CONSTANTS KnownGJKR,    \* TRUE while "GJKR extraction: an honest party alone fails Generate when a party deviates" is a listed finding:
+                        \* then an honest party returning false is tolerated in dkg / nts runs with a party using the
+                        \* library's faulty switch, and the invariants speak about the honest parties that completed
+          KnownWithheld,\* TRUE while "a dealer that withholds / stops dealing private shares splits the honest parties" is listed
+          KnownErase   \* TRUE while the finding "party erased from QUAL after the sharing of x" is a listed known finding:
                       \* then, and only in executions where that happened, the check g^x = y is not made
 VARIABLES l, cur, outs        \* cur: the Reset record of the running execution; outs: party -> its Out record
 vars == <<l, cur, outs>>
@@ -23,7 +27,10 @@ T == cur.t
 Parties == 0..(N - 1)
 \* role 0: honest; 3: honest code whose first private message to one party was tampered with (a dealer handing out
 \* one wrong share, then behaving); 1: the library's built-in faulty behaviour; 2: silent from the start
-Good == {i \in Parties : cur.role[i + 1] \in {0, 3}}
+Good0 == {i \in Parties : cur.role[i + 1] \in {0, 3}}
+LibFaulty == \E k \in 1..N : cur.role[k] = 1
+Tolerated == {i \in Good0 : KnownGJKR /\ cur.proto \in {"dkg", "nts"} /\ LibFaulty /\ i \in DOMAIN outs /\ ~outs[i].ret}
+Good == Good0 \ Tolerated
 Done == DOMAIN outs
 O(i) == outs[i]
 QualSet(o) == {o.qual[k] : k \in 1..Len(o.qual)}
@@ -99,7 +106,7 @@ VssOK ==
          acc == {i \in Good : O(i).ret}
      IN
      \* all good parties take the same decision about the dealer; a good dealer is accepted
-     /\ (acc = Good \/ acc = {})
+     /\ (KnownWithheld /\ cur.role[d + 1] = 4) \/ (acc = Good \/ acc = {})
      /\ dealerGood => acc = Good
      /\ acc = Good =>
           /\ \A a, b \in Good : O(a).A = O(b).A
